@@ -224,9 +224,13 @@ func NewFullRT(h host.Host, protocolPrefix protocol.ID, options ...Option) (*Ful
 
 	var bsPeers []*peer.AddrInfo
 
-	for _, ai := range dhtcfg.BootstrapPeers() {
-		tmpai := ai
-		bsPeers = append(bsPeers, &tmpai)
+	// The config is built by hand, so BootstrapPeers stays nil unless the
+	// caller passes the option.
+	if dhtcfg.BootstrapPeers != nil {
+		for _, ai := range dhtcfg.BootstrapPeers() {
+			tmpai := ai
+			bsPeers = append(bsPeers, &tmpai)
+		}
 	}
 
 	rt := &FullRT{
